@@ -60,6 +60,7 @@ structure ArchIO (A : Arch) where
   showOut : Out A.Regs → String
   showRegs : A.Regs → String
   specExpect : Row → Bool → A.Regs → Mem → Option String
+  rawSpec : Row → A.Regs → Mem → Option String
 
 structure WState (A : Arch) where
   n : Nat
@@ -159,6 +160,26 @@ def specExpectX64 (row : Row) (first : Bool) (regs : RegsX64) (mem : Mem) : Opti
       else none
     | _ => none
 
+/-- The unguarded DWARF meaning of the row for a call (used only to validate the harness's
+ground truth generator): `frame:<ra> <regs>` / `done <regs>` / `none`. -/
+def rawSpecX64 (row : Row) (regs : RegsX64) (mem : Mem) : Option String :=
+  match dwarfSpec row regs.sp regs.bp regs.ip mem with
+  | .step ra cfa fp' =>
+    if 0 ≤ cfa then some ("frame:" ++ toHex ra ++ " " ++ showRegsX64 (afterX64 regs ra cfa.toNat fp'))
+    else none
+  | .endOfStack => some ("done " ++ showRegsX64 regs)
+  | _ => none
+
+def rawSpecA64 (row : Row) (regs : RegsA64) (mem : Mem) : Option String :=
+  match dwarfSpec row regs.sp regs.fp regs.lr mem with
+  | .step raRaw cfa fp' =>
+    if 0 ≤ cfa then
+      some ("frame:" ++ toHex (strip regs.mask raRaw) ++ " " ++
+        showRegsA64 (afterA64 regs raRaw cfa.toNat fp'))
+    else none
+  | .endOfStack => some ("done " ++ showRegsA64 regs)
+  | _ => none
+
 /-- Same for aarch64 (`C05_a64_*`). -/
 def specExpectA64 (row : Row) (first : Bool) (regs : RegsA64) (mem : Mem) : Option String :=
   match dwarfSpec row regs.sp regs.fp regs.lr mem with
@@ -237,6 +258,9 @@ def handleWorld (A : Arch) (io : ArchIO A) (st : WState A) (cmd : String)
         " spec=" ++ (match (rowFor u addr).bind (fun r => io.specExpect r (!addr.isReturn) regs mem) with
           | some e => e.replace " " "|"
           | none => "-") ++
+        " raw=" ++ (match (rowFor u addr).bind (fun r => io.rawSpec r regs mem) with
+          | some e => e.replace " " "|"
+          | none => "-") ++
         " br=" ++ pathTag A st.n u c addr regs mem)
   else if cmd == "iter" then do
     let u ← List.lookup (← lookup fs "u") st.unws
@@ -257,12 +281,14 @@ def ioX64 : ArchIO archX64 where
   showOut := showOutX64
   showRegs := showRegsX64
   specExpect := specExpectX64
+  rawSpec := rawSpecX64
 
 def ioA64 : ArchIO archA64 where
   parseRegs := parseRegsA64
   showOut := showOutA64
   showRegs := showRegsA64
   specExpect := specExpectA64
+  rawSpec := rawSpecA64
 
 
 end FH.Driver
